@@ -246,7 +246,7 @@ pub proof fn lemma_head_arg_vals(terms: Seq<asp::Term>, iv: Seq<String>, names: 
     assert(arith_closed(t, iv));
     if spec_reg1(t) {
         assert(corr(g, s, iv, |k: VKey| asp_in_term(t, k))) by {
-            assert forall|k: VKey| asp_in_term(t, k) implies #[trigger] g[k] == s[nkey(iv, k.0)] && (is_int_var(iv, k.0) ==> g[k] is Int) by { assert(terms_in(terms, k)); }
+            assert forall|k: VKey| asp_in_term(t, k) implies #[trigger] g[k] == nval(s, iv, k.0) by { assert(terms_in(terms, k)); }
         }
         lemma_p2f_value(t, iv, spec_p2f(t, iv)->Some_0, fc, g, s, v);
     } else {
@@ -259,10 +259,10 @@ pub proof fn lemma_head_arg_vals(terms: Seq<asp::Term>, iv: Seq<String>, names: 
         assert forall|k: VKey| #[trigger] asp_in_term(t3, k) implies is_int_var(iv, k.0) && terms_in(terms, k) by { assert(asp_in_term(t, k)); }
         assert(arith_closed(t2, iv) && arith_closed(t3, iv));
         assert(corr(g, s, iv, |k: VKey| asp_in_term(t2, k))) by {
-            assert forall|k: VKey| asp_in_term(t2, k) implies #[trigger] g[k] == s[nkey(iv, k.0)] && (is_int_var(iv, k.0) ==> g[k] is Int) by { assert(terms_in(terms, k)); }
+            assert forall|k: VKey| asp_in_term(t2, k) implies #[trigger] g[k] == nval(s, iv, k.0) by { assert(terms_in(terms, k)); }
         }
         assert(corr(g, s, iv, |k: VKey| asp_in_term(t3, k))) by {
-            assert forall|k: VKey| asp_in_term(t3, k) implies #[trigger] g[k] == s[nkey(iv, k.0)] && (is_int_var(iv, k.0) ==> g[k] is Int) by { assert(terms_in(terms, k)); }
+            assert forall|k: VKey| asp_in_term(t3, k) implies #[trigger] g[k] == nval(s, iv, k.0) by { assert(terms_in(terms, k)); }
         }
         let v2 = eval_gen(lo, fc, s);
         let v3 = eval_gen(hi, fc, s);
